@@ -181,46 +181,57 @@ func H_C18_nativeBand() {
 	vassert(hits > 0, "C18: no value of the top bit band in 400000 draws (unreachable value band)")
 }
 
-// twoChecks runs the real checkTB twice under one test name without -rapid.seed and returns the
-// first word each run's first test case drew.
-func twoChecks() (uint64, uint64, bool) {
+// twoChecks runs the real checkTB twice under one test name without -rapid.seed and returns,
+// for each run, the first word its first test case drew and (under gosym) the seed that test
+// case's PRNG was initialised with.
+func twoChecks() (w [2]uint64, seed [2]uint64, ok bool) {
 	flags.seed = 0
 	flags.checks = 1
 	flags.nofailfile = true
 	flags.shrinkTime = 0
-	// the property always passes: it only records the first word of each test case
-	var w1, w2 []uint64
-	runIsolated(func() { checkTB(newVTB("Fresh"), farDeadline(), func(t *T) { w1 = append(w1, t.s.drawBits(64)) }) })
-	runIsolated(func() { checkTB(newVTB("Fresh"), farDeadline(), func(t *T) { w2 = append(w2, t.s.drawBits(64)) }) })
-	if len(w1) == 0 || len(w2) == 0 {
-		return 0, 0, false
+	n := [2]int{}
+	for k := 0; k < 2; k++ {
+		k := k
+		// the property always passes: it only records what the first test case starts from
+		runIsolated(func() {
+			checkTB(newVTB("Fresh"), farDeadline(), func(t *T) {
+				if n[k] == 0 {
+					if symbolic() {
+						seed[k] = streamSeed(t.s.(*randomBitStream))
+					}
+					w[k] = t.s.drawBits(64)
+				}
+				n[k]++
+			})
+		})
 	}
-	return w1[0], w2[0], true
+	return w, seed, n[0] > 0 && n[1] > 0
 }
 
-// H_C18_freshChecks: two Check calls of the same test in one process are not forced to explore
-// the same sequence: the solver must find an environment (entropy source) in which their first
-// test cases differ. If it cannot, every Check of that test repeats a fixed sequence.
+// H_C18_freshChecks: two Check calls of the same test in one process never start from the same
+// seed - for EVERY environment that satisfies the contracts of its sources: the entropy source
+// (hash/maphash) hands out pairwise distinct values, the clock is merely non-decreasing (two
+// readings may be equal), the pid is constant. Under gosym the seeds themselves are compared;
+// natively (replay) the first words of 4 pairs of real runs.
 func H_C18_freshChecks() {
-	a, b, ok := twoChecks()
-	vassert(ok, "C18: Check ran no test case")
-	if a != b {
-		reach("two-checks-can-differ")
-	}
-	if a != 12345 {
-		reach("not-a-constant")
-	}
-}
-
-// H_C18_nativeFresh (native confirmation for H_C18_freshChecks): real Check pairs, real entropy.
-func H_C18_nativeFresh() {
+	symClock(true)
 	if symbolic() {
+		_, seed, ok := twoChecks()
+		vassert(ok, "C18: Check ran no test case")
+		vassert(seed[0] != seed[1], "C18: two Check calls of one test in one process explore the same test cases (no fresh seed)")
+		if seed[0] != 12345 {
+			reach("not-a-constant")
+		}
+		reach("compared")
 		return
 	}
 	differ := false
 	for i := 0; i < 4; i++ {
-		a, b, ok := twoChecks()
-		differ = differ || (ok && a != b)
+		w, _, ok := twoChecks()
+		differ = differ || (ok && w[0] != w[1])
 	}
 	vassert(differ, "C18: two Check calls of one test in one process explore the same test cases (no fresh seed)")
+	reach("not-a-constant")
+	reach("compared")
 }
+
